@@ -127,7 +127,12 @@ def run(ctx):
     rng = ctx.rng
     quick = ctx.quick
     # ------------------------------------------------------------------ fields: table / primitive element
-    tab = primpolys.extract(__import__("common").REPO)
+    try:
+        tab = primpolys.extract(__import__("common").REPO)
+    except Exception as e:      # translator fail-closed: theorems no longer tied; fall back to searching the implementation
+        ctx.note("translator failed (%s): oracle-only search on the implementation" % e)
+        oracle_only(ctx, im, rng, quick)
+        return
     ms = sorted(tab["table"])
     info = ctx.coq_eval("finfo", HDR, ["map (fun m => f_info (N.of_nat m)) %s" % clist(ms, lambda m: "%d%%nat" % m)])[0]
     for m, (pmv, primv, order) in zip(ms, info):
@@ -327,6 +332,39 @@ def run(ctx):
                         "the per-field element cache and the unused _exp_table/_log_table are not modelled"]
     ctx.cov["exhaustive"] = False
     ctx.note("polynomial grid bound %d, full field grids m<=%d, minimal polynomials exhaustive m<=%d" % (NB, full_ms[-1], mp_full[-1]))
+
+
+def oracle_only(ctx, im, rng, quick):
+    """The property's statements checked on the implementation alone (used when the model tie is broken)."""
+    ms = []
+    for m in range(1, 17):
+        try:
+            F = im.field(m)
+        except Exception:
+            continue
+        ms.append(m)
+        g = F.primitive_element()
+        cur, j = g, 1
+        n = (1 << m) - 1
+        while cur.value != 1 and j <= n:
+            cur = cur * g
+            j += 1
+        ctx.count("field-info")
+        if cur.value != 1 or j != n or F.modulus.degree != m:
+            ctx.violation("C18/FiniteBifield/primitive-order/m=%d" % m,
+                          "GF(2^%d): designated primitive element %d has order %s (needs %d); modulus %s of degree %d"
+                          % (m, g.value, j if cur.value == 1 else "none", n, bin(F.modulus.value), F.modulus.degree),
+                          {"m": m, "modulus": F.modulus.value, "element": g.value, "observed_order": j if cur.value == 1 else None})
+    for a in range(64):
+        for b in range(64):
+            ctx.count("poly-grid", 5)
+            poly_oracle(ctx, a, b, im.poly_ops(a, b))
+    for m in ms:
+        field_oracle(ctx, im, m, rng, triples=(m <= 3), samples=0 if m <= 6 else 60)
+        for a in ([1, 2, 3] if m > 6 else range(1, 1 << m)):
+            if a < (1 << m):
+                minpoly_oracle(ctx, im, m, a, im.f_minpoly(m, a))
+    ctx.cov["exhaustive"] = False
 
 
 def poly_oracle(ctx, a, b, o):
